@@ -7,8 +7,6 @@ KIT = ["vp_nondet.c", "vp_mem.c", "vp_alloc_d1.c", "vp_names.c"]
 INC_REAL = ["db_impl.c", "util/vector.c"]
 
 GC_FUNCS = ["ldb_remove_obsolete_files", "ldb_vector_init", "ldb_vector_push", "ldb_vector_grow", "ldb_vector_clear"]
-RBT_FUNCS = ["rb_tree_init", "rb_tree_copy", "rb_tree_clear", "rb_tree_put", "rb_tree_get", "rb_tree_del",
-             "rb_set64_has", "rb_set64_put", "rb_set64_del"]
 
 GC_DESC = ("real ldb_remove_obsolete_files() from an arbitrary state: set of unlinked names == reference keep rules "
            "(foreign/CURRENT/LOCK/LOG keep; log < log_number and != prev_log_number; MANIFEST < manifest_file_number; "
@@ -16,29 +14,28 @@ GC_DESC = ("real ldb_remove_obsolete_files() from an arbitrary state: set of unl
            "bg_error is latched, unlink only with the mutex released, mutex held on return")
 
 
-def _gc(prefix, n, live=3, pend=2, twice=0, real_rbt=0, tier="quick", timeout=600):
+def _gc(prefix, n, live=3, pend=2, twice=0, tier="quick", timeout=600):
     defs = {"VP_N": n, "VP_LIVE": live, "VP_PEND": pend, "VP_TWICE": twice}
-    real = []
-    uw = {}
-    if real_rbt:
-        defs["VP_REAL_RBT"] = 1
-        real = ["util/rbt.c"]
-    name = "%s.gc-n%d-live%d-pend%d%s%s" % (prefix, n, live, pend, "-twice" if twice else "", "-rbt" if real_rbt else "")
-    return Obl(name, "dbimpl/gc.c", real=real, include_real=INC_REAL, kit=KIT, defs=defs,
-               unwind=max(n, live + pend + 2, 11) + 2, unwindset=uw, tier=tier, timeout=timeout,
-               flags=["--slice-formula"],
-               functions=GC_FUNCS + (RBT_FUNCS if real_rbt else []),
+    uw = {"ldb_remove_obsolete_files.0": n + 1, "ldb_remove_obsolete_files.1": n + 1}
+    name = "%s.gc-n%d-live%d-pend%d%s" % (prefix, n, live, pend, "-twice" if twice else "")
+    return Obl(name, "dbimpl/gc.c", include_real=INC_REAL, kit=KIT, defs=defs,
+               unwind=max(n, live + pend + 2, 11) + 1, unwindset=uw, tier=tier, timeout=timeout,
+               flags=["--slice-formula"], sat="cadical",
+               functions=GC_FUNCS,
                desc=GC_DESC + ("; a second collection removes nothing more" if twice else ""),
-               bounds="<=%d directory entries (symbolic type, 64-bit number, spelling; or foreign), <=%d live table numbers, <=%d pending outputs, symbolic log/prev-log/manifest numbers, symbolic bg_error, listing may fail; pending_outputs held by %s"
-                      % (n, live, pend, "the real util/rbt.c tree" if real_rbt else "an array model of rb_set64"))
+               bounds="<=%d directory entries (symbolic type, 64-bit number, spelling; or foreign), <=%d live table numbers, <=%d pending outputs, symbolic log/prev-log/manifest numbers, symbolic bg_error, listing may fail"
+                      % (n, live, pend))
 
 
 def gc_obls(prefix):
     out = []
     out.append(_gc(prefix, 0))
-    out.append(_gc(prefix, 3))
+    out.append(_gc(prefix, 2))
+    out.append(_gc(prefix, 4))
     out.append(_gc(prefix, 5))
     out.append(_gc(prefix, 3, twice=1))
+    out.append(_gc(prefix, 5, twice=1, tier="thorough"))
+    out.append(_gc(prefix, 6, live=4, pend=3, tier="thorough", timeout=1800))
     return out
 
 
